@@ -25,19 +25,19 @@ CHECKS['C16'] = dict(
     design='§5 C16')
 
 CHECKS['C04'] = dict(
-    technique='Lean 4 theorems about the definition-loader model (first-wins / last-wins merges, stable size order, fixed-before-variable, masks, parseSection_flat: interface recursion = left fold over the depth-first visiting order) + kernel-checked facts regenerated from /repo + exhaustive differential load of all bundled definition sets + generated sets against a naive oracle',
+    technique='Lean 4 theorems about the definition-loader model (first-wins / last-wins merges, stable size order, fixed-before-variable, masks, parseSection_flat / parseSection_order_irrelevant: interface recursion = left fold over the depth-first visiting order) + kernel-checked facts regenerated from /repo + exhaustive differential load of all bundled definition sets + generated sets against a naive oracle',
     text='C04 theorems prove for every method/property list: the merge of sections is keepFirst / keepLast of the concatenation, the exposed list is a size-sorted stable permutation of the filtered list, every variable-size method follows every fixed-size one, internal lists are mask-selected sublists, entity ids are 1-based positions; Generated facts (masks, flag values, INFINITY, default header, SIMPLE_TYPES) are re-extracted from the live code and re-checked by `decide`. The loader model is tied to the real Definitions() exhaustively on all bundled sets (XML trees in, full views compared) and on generated sets, where a third naive implementation of the stated rules is the oracle.',
     note='lxml parsing is external (the harness parses with its own options); parseSection_flat is stated for parses that succeed (error precedence between a missing interface file and a bad type is not characterised); <Default> values are modelled only as accepted/refused.',
     design='§5 C04')
 CHECKS['C05'] = dict(
-    technique='Lean 4 invariant/frame theorems over the world model (step_frame, step_wf, play_wf, entityProperty_lww, property_history_lww over whole histories, player_id_base) + differential play of generated histories in 4 dialects (world compared after every packet) + recordings through the model as independent decoder',
+    technique='Lean 4 invariant/frame theorems over the world model (step_frame, step_wf, play_wf, entityProperty_lww, property_history_lww and the general entity_fold over whole histories: an entity's state is the fold of its own packets - updates, nested updates, positions, calls - among arbitrary packets for others; player_id_base) + differential play of generated histories in 4 dialects (world compared after every packet) + recordings through the model as independent decoder',
     text='C05 theorems: every packet changes at most the entity it addresses (all dialects, all packets, failing or not); the id-table invariant holds in every reachable world; a property update stores exactly the decoded value under that name (dict laws give last-writer-wins per property); the base-player id is reported. The world model is tied to the real players by generated histories (model vs implementation after each packet, and against a plain dict LWW interpreter) and by the final worlds of real recordings.',
-    note='property_history_lww covers histories in which the entity itself receives only property updates (others arbitrary); creation / nested updates in the same history compose through the per-step theorems; correspondence is sampled; recording controller via the documented _get_controller/_get_definitions extension points.',
+    note='entity_fold starts from any world in which the entity exists: a (re-)creation packet for the same id splits a history into segments joined by the per-step creation theorems; the own-player position packet (two entities) is covered per step in C08; correspondence is sampled; recording controller via the documented _get_controller/_get_definitions extension points.',
     design='§5 C05')
 CHECKS['C06'] = dict(
-    technique='Lean 4 theorems: Python slice-assignment semantics, leaf operations and descent steps as List.set / dict assignment, frame lemmas, and the closed form of the bit-level layout (walk_reach: a written index path of any depth decodes to that path; leaf_encoded; nested_update_decodes: read_and_apply on any written payload = the operation applied at the end of the path) + differential play of generated nested-operation sequences against plain list/dict operations',
+    technique='Lean 4 theorems: Python slice-assignment semantics, leaf operations and descent steps as List.set / dict assignment, frame lemmas, and the closed form of the bit-level layout (walk_reach: a written index path of any depth decodes to that path; leaf_encoded; nested_update_decodes; the encoder in the model: bitsOf_packBits, nested_encode_apply: read_and_apply (encodeNested ...) = the list/dict operation at the end of the path, nested_packet_step through the packet layout and stepNet) + the harness encoder compared byte for byte with the model encoder + differential play of generated nested-operation sequences against plain list/dict operations',
     text='C06 theorems give the semantics of every step of a nested update in the model as ordinary list/dict operations (slice with all clamping cases, element set, value-less set, dict field set, descent = List.set/dictSet of the updated child, stop conditions) and that nothing else changes. The model is tied to NestedProperty.read_and_apply by generated op sequences (depth 1..5, all slice pairs) compared after every packet, with the generator applying the same operations to plain Python lists/dicts as oracle.',
-    note='nested_update_decodes takes the payload header as any byte string whose bits spell the written fields padded to a byte boundary (a bit-packing function with its own inverse lemma is not defined); subscriber notification (substring key match) is model code exercised by the correspondence; the payload-length fix (32-bit) is part of the modelled code.',
+    note='the encoder (packBits / encodeNested) is part of the model and its bytes are compared with the harness's own encoder on every generated operation inside its domain; a stop bit of 1 on an empty container is outside the encoder (covered by walk_reach and the tie); subscriber notification is proved in C07.dispatch_nested; the payload-length fix (32-bit) is part of the modelled code.',
     design='§5 C06')
 CHECKS['C08'] = dict(
     technique='Lean 4 theorems position_spec / player_position_{set,copy,unknown_ignored,zero} / pose_frame / entity_history (updates and positions over whole histories) + differential play of generated position histories + recordings',
@@ -46,17 +46,17 @@ CHECKS['C08'] = dict(
     design='§5 C08')
 
 CHECKS['C02'] = dict(
-    technique='Lean 4 theorems frames_encode / frames_truncated_{header,payload} / parse_bound / unmapped_noop / play_filter / ignored_noop + differential framing of generated streams + insertion of unmapped packets into generated histories and recordings',
+    technique='Lean 4 theorems frames_encode / frames_truncated_{header,payload} / parse_bound / unmapped_noop / play_filter / ignored_noop / stepNet_time_irrelevant / getInfo_written (file -> container -> frames -> play, end to end) + differential framing of generated streams + insertion of unmapped packets into generated histories and recordings',
     text='C02 theorems: parsing a concatenation of encoded packets returns exactly those packets in order (any count, sizes < 2^32), a cut inside the last header ends with the short-header error after the complete packets, a cut inside the payload still delivers that packet; the loop consumes >= 12 bytes per packet; an unmapped type is a no-op for every table, payload and world, and play(ps) = play(ps without unmapped) for both modes. Tied to PlayerBase.play by generated streams played through greedy decoders (isolation), and by inserting unmapped packets at random and at every position of generated histories (4 dialects) and into real recordings.',
     note='payload isolation is structural in the model (handlers receive the payload only) and behavioural in the tie (decoders that read everything they can); correspondence is sampled.',
     design='§5 C02')
 CHECKS['C07'] = dict(
-    technique='Lean 4 theorems subscribe_appends/other/many, runSubs_all, unsubscribed_noop, dispatch_method, dispatch_property, undecodable_call_clean, step_log_append + differential invocation logs on generated histories with random subscription sets + recordings with every method subscribed',
+    technique='Lean 4 theorems subscribe_appends/other/many, runSubs_all, unsubscribed_noop, dispatch_method, dispatch_property, undecodable_call_clean, step_log_append / dispatch_nested + differential invocation logs on generated histories with random subscription sets + recordings with every method subscribed',
     text='C07 theorems: registration appends (all callbacks of a key are kept, other keys untouched); a matching event invokes every non-raising subscriber once, in registration order, with the entity, positional and keyword arguments split by name; with no subscriber a call is a no-op for every payload (never decoded); property subscribers get (entity, new value) after the value is stored; the log only grows (stream order). Tied to Entity.subscribe_*/call_client_method by recording callbacks on generated histories (log compared with the model and with the expectation derived from the generated events) and by the full method-call trace of real recordings against the model as independent decoder.',
     note='nested-change delivery (substring key match) is model code exercised by the correspondence; callbacks are opaque (recorded, optionally raising).',
     design='§5 C07')
 CHECKS['C12'] = dict(
-    technique='Lean 4 theorems modes_agree, lenient_no_raise/lenient_total, strict_prefix, lenient_eq_filtered, put_stored, unknown_entity_clean, method_index_clean, method_undecodable_clean, property_failure_clean + fault injection into generated histories in both modes',
+    technique='Lean 4 theorems modes_agree, lenient_no_raise/lenient_total, strict_prefix, lenient_eq_filtered / getInfo_lenient_returns / getInfo_strict_returns_lenient, put_stored, unknown_entity_clean, method_index_clean, method_undecodable_clean, property_failure_clean + fault injection into generated histories in both modes',
     text='C12 theorems over the play loop: strict stops at the first failing packet with exactly the state reached before it (plus that packet\'s partial effect) and its exception; lenient never raises out of the loop; when failing packets are clean the lenient world equals playing the stream without them, failure-free; fault-free streams give identical results; the named failure classes (unknown entity, index out of range, undecodable value of update/call) leave the world exactly as it was (real equality, using the table invariant). Tied to PlayerBase.play by injecting 0..5 faults into generated histories and checking the same three statements on the implementation alone, plus model/implementation agreement in both modes.',
     note='the top-level get_info catch-all is covered with the container (C01/C15); correspondence is sampled.',
     design='§5 C12')
@@ -67,15 +67,15 @@ CHECKS['C01'] = dict(
     note='Blowfish (Cryptodome), zlib and json are external parameters of the theorem (assumed inverse pairs); correspondence is sampled except for the length-mod-8 enumeration.',
     design='§5 C01')
 CHECKS['C11'] = dict(
-    technique='Lean 4 theorems resolve_spec / resolve_mem / defs_ctrl_same / unsupported_refused / missing_defs_refused / table_switch + version strings wrapped into containers and parsed in both modes, observed player compared with the model and the directory-listing rule',
+    technique='Lean 4 theorems resolve_spec / resolve_mem / defs_ctrl_same / unsupported_refused / missing_defs_refused / table_switch / getInfo_refused / getInfo_uses_selection (top of the pipeline) + version strings wrapped into containers and parsed in both modes, observed player compared with the model and the directory-listing rule',
     text='C11 theorems: resolution picks the 4-component version if bundled, else the 3-component one, else refuses, and only ever a bundled name; definitions and controller coincide whenever the bundled sets agree on the two candidates (evaluated on the tree each run); the 12.6.0 table switch for every build number. Tied to ReplayParser/ReplayPlayer by generated version strings in the three formats wrapped into real containers; the constructed player (controller module, definitions directory, packet table) and the strict/lenient refusal are observed.',
     note='importlib and packaging.version are external; the bundled sets are read from the tree by the harness (directory listing + import attempts).',
     design='§5 C11')
 
 CHECKS['C09'] = dict(
-    technique='Lean 4 theorems about the controller fold (deaths_ordered, achievements_count, shots_damage_sum, planes_count, roster_merge/roster_frame, field_frame_*, map_prefix/map_no_prefix, battle_result_last) + synthetic battles for every bundled version compared with the model and with a naive fold',
+    technique='Lean 4 theorems about the controller fold (deaths_ordered, achievements_count, shots_damage_sum, planes_count, roster_merge/roster_frame, field_frame_*, map_prefix/map_no_prefix, battle_result_last) and from the bytes of the stream (Extract model: deaths_of_stream, player_of_stream, eventOfCall_isCall) + the model decoding each wows battle with that version's own definition files and extracting the same events + synthetic battles for every bundled version compared with the model and with a naive fold',
     text='C09 theorems prove, for every event trace: the death list is the ordered sub-sequence of death events, achievement / plane / damage counters equal counts and sums over all matching events (counted each time), roster messages merge right-biased by id without touching other players, an event of one kind changes only its own fields, the map is the arena name minus the literal prefix. Tied to every bundled controller (76 wows, 2 wot, 3 wowp) by synthetic random battles encoded against that version\'s own definitions and packet numbering and parsed by ReplayParser(strict=True): summary through the shipped encoder vs the model\'s fold of the same events vs the generator\'s naive fold.',
-    note='partial: pickle and json are external; per-version argument shapes and key mappings are resolved by the generator (appendix C), the model is the fold all variants share; crew / tasks / control-point fields are read from the final world (covered by C05) and compared only for presence.',
+    note='partial: pickle and json are external; per-version argument shapes and key mappings are resolved by the generator (appendix C), the model is the fold all variants share; events inside pickled arguments (rosters, damage statistics) are outside the model; crew / task / control-point / death-info fields are generated non-trivially and compared with the tracker's final world through the version's own tables (oracle), not modelled in Lean.',
     design='§5 C09')
 CHECKS['C10'] = dict(
     technique='Lean 4 theorems about Python call binding (too_many_positional, unknown_keyword, missing_required, exact_arguments_bind) + exhaustive enumeration of every bundled version x every registered subscription (model bind vs inspect.Signature.bind) + one complete battle per version in strict mode',
@@ -95,7 +95,7 @@ CHECKS['C13'] = dict(
     note='the process-wide registry is the only shared state modelled; module-level caches of third-party libraries are outside the model; after a container-level failure no summary exists and the registry is not compared; sequences are sampled.',
     design='§5 C13')
 CHECKS['C14'] = dict(
-    technique='Lean 4 theorems encodable_of_keysOK (+ tuple-key counterexample), step_stdout / playPackets_stdout / play_stdout_empty (no packet writes to standard output in the model), kernel-checked facts printSites_fact / onSetConsumable_unsubscribed_fact / parser_no_dump_fact regenerated from /repo + the CLI run as a subprocess on synthetic battles of every bundled version and recordings (stdout must be exactly one JSON document)',
+    technique='Lean 4 theorems encodable_of_keysOK / summary_encodable (every summary of the controller fold is serialisable) (+ tuple-key counterexample), step_stdout / playPackets_stdout / play_stdout_empty (no packet writes to standard output in the model), kernel-checked facts printSites_fact / onSetConsumable_unsubscribed_fact / parser_no_dump_fact regenerated from /repo + the CLI run as a subprocess on synthetic battles of every bundled version and recordings (stdout must be exactly one JSON document)',
     text='C14 theorems: every summary term whose dict keys are str/int/float/bool/None is encodable for every nesting; the model world\'s stdout is unchanged by every packet, hence empty after every stream in both modes; the regenerated list of print call sites contains only the CLI\'s final print and callbacks no controller subscribes. Tied to the code by running replay_parser.py on battles whose entity ids include every integer literal of the source and on recordings, and by passing every summary through the shipped encoder and the model\'s encodable.',
     note='partial: the encoder itself (json + DefaultEncoder) is external; what the summary contains per version is observed, not proved; print-site list is an ast scan (dynamic writes via sys.stdout would be seen only by the subprocess runs).',
     design='§5 C14')
